@@ -546,6 +546,10 @@ func inscribeCase(prefix, ct, data []byte, enriched [][]byte, enrichedNil bool, 
 			c.Violate("Inscribe/roundtrip", fmt.Sprintf("prefix %x, inscribed %x", *got.LockingScriptPrefix, prefix), twin)
 		}
 	}
+	if !expectRoundTrip && ok && !bytes.Equal(*got.LockingScriptPrefix, prefix) {
+		// no claim that such a prefix parses at all; but when it does, the prefix returned is the one inscribed
+		c.Violate("Inscribe/roundtrip", fmt.Sprintf("prefix %x, inscribed %x", *got.LockingScriptPrefix, prefix), twin)
+	}
 	coq := fmt.Sprintf("CInscribe %s %s %s %s %s %s", cb(prefix), cb(ct), cb(data), coqOptList(enriched, enrichedNil),
 		common.CoqStr(common.Sha256Hex(script)), obs)
 	// weight: the Coq side hashes and tokenises the script; spread the long ones over shards
@@ -686,7 +690,12 @@ func inscriptionCases(r *common.Rand) {
 		}
 	}
 	// prefixes that are not P2PKH: Inscribe still works, ParseInscription is expected to say no (no round-trip claim)
-	for _, p := range [][]byte{{}, {0x51}, feegen.P2PKH(r.Bytes(20))[:24], append([]byte{0x51}, feegen.P2PKH(r.Bytes(20))...), r.Bytes(25)} {
+	h20 := r.Bytes(20)
+	for _, p := range [][]byte{{}, {0x51}, feegen.P2PKH(r.Bytes(20))[:24], append([]byte{0x51}, feegen.P2PKH(r.Bytes(20))...), r.Bytes(25),
+		// the P2PKH opcodes around a hash pushed with OP_PUSHDATA1/2, and the opcode bytes pushed as data: they
+		// decode to the same parts as the template but are not the 25-byte script
+		append(append([]byte{0x76, 0xa9, 0x4c, 0x14}, h20...), 0x88, 0xac), append(append([]byte{0x76, 0xa9, 0x4d, 0x14, 0x00}, h20...), 0x88, 0xac),
+		append(append([]byte{0x01, 0x76, 0x01, 0xa9, 0x14}, h20...), 0x01, 0x88, 0x01, 0xac), append(append([]byte{0x76, 0xa9, 0x13}, h20[:19]...), 0x88, 0xac)} {
 		inscribeCase(p, []byte("x"), []byte("y"), nil, true, false)
 	}
 	// ParseInscription on scripts near an inscription: every encoding of an empty / one-zero-byte push at the
